@@ -116,13 +116,10 @@ theorem expand_step (ms : Macros) : ∀ fuel : Nat,
               simp only [hm]
               split at h
               · cases h
-              · rename_i rules' _
-                split at h
-                · cases h
-                · cases h
-                · rename_i st'' hl
-                  cases h
-                  exact ihL _ { st with rules := rules' } _ _ hl
+              · cases h
+              · rename_i st'' hl
+                cases h
+                exact ihL _ _ _ _ hl
       · -- any other directive
         rename_i hk
         simp only [hk]
